@@ -499,7 +499,7 @@ def run_check(spec, tier, seed):
                     continue
                 if mt and mt[0].startswith('UNSUPPORTED'):
                     stats['unsupported'] += 1
-                elif driver_ok:
+                elif driver_ok and not c.get('no_compare'):
                     if same_trace(it, mt):
                         stats['agree'] += 1
                     else:
